@@ -76,6 +76,13 @@ class SimFileIO(_real_io.FileIO):
                 return got
         got = super().readinto(mv)
         sim.ctx.log("readinto", name, req, got)
+        hook = sim.after_read
+        if hook is not None and sim.after_read_at is not None and k >= sim.after_read_at:
+            # a scheduling point: between this read and the library's use of what it read, ANOTHER task of the process
+            # runs (what a thread switch at the GIL release of readinto amounts to) - here, to completion
+            sim.after_read = None
+            sim.ctx.log("SWITCH-after-read", name, k)
+            hook()
         return got
 
     def write(self, b):  # noqa: D102
@@ -96,6 +103,18 @@ class SimFileIO(_real_io.FileIO):
                 return n
             if sim.enospc:
                 raise OSError(errno.ENOSPC, "simulated ENOSPC (sticky)")
+            cap = sim.raw_write_cap
+            if cap and sim.cur_write_kind == "cwrite":
+                # W4: one write(2) transfers at most `cap` bytes (Linux: 0x7ffff000; here a few bytes) and says so in
+                # its return value - no error, the caller is expected to write the rest.  Only for DATA written with a
+                # raw write from inside cwrite (the pinned tree writes data with ndarray.tofile, whose C stream loops
+                # by itself, so this never fires there).
+                mv = memoryview(b).cast("B")
+                if len(mv) > cap:
+                    n = super().write(mv[:cap])
+                    sim.ctx.faults["W4"] += 1
+                    sim.ctx.log("PARTIAL-raw-write", sim.ctx.rel(self.name), len(mv), n)
+                    return n
             return super().write(b)
         if sim is None or not sim.active:
             return super().write(b)
@@ -143,6 +162,10 @@ class SimDisk:
         self.pending_w3 = None  # a W3 fault addressed to the write call in progress (raw-write path)
         self.raw_writes_in_call = 0
         self.short_raw_write = False
+        self.raw_write_cap = int((getattr(ctx, "sc", None) or {}).get("write_cap") or 0)  # W4 (see SimFileIO.write)
+        self.cur_write_kind = None
+        self.after_read = None  # one-shot callable run right after the read call number `after_read_at` of the current op
+        self.after_read_at = None
         self.fine_grained = False  # observe the file at every C-call boundary inside a write call (C20 golden run)
         self._saved = None
 
@@ -226,6 +249,7 @@ class SimDisk:
             self.ctx.log(kind, name, "ENOSPC-sticky")
             raise OSError(errno.ENOSPC, "simulated ENOSPC (sticky)")
         self.in_wrapped_write = True
+        self.cur_write_kind = kind
         self.raw_writes_in_call = 0
         self.short_raw_write = False
         self.pending_w3 = f if (f is not None and f["kind"] == "W3" and kind == "cwrite") else None
